@@ -9,6 +9,7 @@ mod minimise;
 mod model;
 mod names;
 mod rng;
+mod rspec;
 mod spec;
 mod stats;
 mod tree;
